@@ -42,6 +42,14 @@ namespace asl {
 #include <stdio.h>
 #include <stdlib.h>
 
+#ifdef ASL_VERIF
+// Verification hooks (compiled in only with -DASL_VERIF): one function pointer, null unless a test harness installs it.
+extern "C" void (*asl_verif_hook)(int kind, const volatile void* obj, long val);
+#define ASL_VERIF_HOOK(kind, obj, val) do { if (asl_verif_hook) asl_verif_hook(kind, (const volatile void*)(obj), (long)(val)); } while (0)
+#else
+#define ASL_VERIF_HOOK(kind, obj, val)
+#endif
+
 #ifndef ASL_NOEXCEPT
 #include <new>
 #define ASL_BAD_ALLOC() throw std::bad_alloc()
